@@ -319,9 +319,9 @@ def run(ctx):
     ctx.note("rule", "case = one (system family, integrator, order, direction/grid kind, random initial state/span) execution; all are non-trivial; "
                      "families: user autonomous rhs, user time-dependent rhs, CR3BP, polynomial Hamiltonian, 42-D variational (thorough)")
     probs = make_problems(ctx)
-    guarded(ctx, "propagate", propagate_level, ctx, probs, ctx.pick(2, 30))
+    guarded(ctx, "propagate", propagate_level, ctx, probs, ctx.pick(2, 12))
     guarded(ctx, "selective_flip", selective_flip, ctx, probs, ctx.pick(4, 60))
-    guarded(ctx, "low_level", low_level_grids, ctx, probs, ctx.pick(1, 20))
+    guarded(ctx, "low_level", low_level_grids, ctx, probs, ctx.pick(1, 8))
     guarded(ctx, "System.propagate", system_propagate, ctx, probs, ctx.pick(10, 80))
     m = 1 if ctx.nshards > 1 else 3
     ctx.require("A:backward state == state the flow had at time -t", 5 * m)
